@@ -292,6 +292,100 @@ func history(r *rng.R) lcw.Input {
 	return in
 }
 
+// siblingWorld: one base with several derived siblings, all mounted, some busy some idle, then umount -all
+func siblingWorld(r *rng.R) lcw.Input {
+	ws, in := world(r, true)
+	imports := lcw.GenImports(r, in.Cfg, true)
+	ws.Layers = []lcw.LayerSpec{{Name: "base1", HasConfig: true, HasBuild: true, Minimal: true, Mountpoints: true, Imports: imports, HasPackages: true}}
+	sibs := []string{"sib1", "sib2", "sib3"}[:2+r.Intn(2)]
+	for _, n := range sibs {
+		ws.Layers = append(ws.Layers, lcw.LayerSpec{Name: n, Base: "base1", HasConfig: true, HasBuild: true, Minimal: true,
+			Mountpoints: true, HasWork: true, HasUpper: true, Imports: lcw.GenImports(r, in.Cfg, false)})
+	}
+	in = lcw.BuildInput(ws)
+	for _, n := range sibs {
+		in.Steps = append(in.Steps, step("mount", n, "", false))
+	}
+	last := step("umount", "", "", true)
+	last.Users = map[string][]lcw.User{}
+	for _, n := range sibs {
+		if r.Chance(1, 2) {
+			last.Users[n] = []lcw.User{{File: r.Pick([]string{"build", "build/usr", "overlayfs/upperdir", "build/root"})}}
+		}
+	}
+	in.Steps = append(in.Steps, last, step("probe", "", "", false))
+	return in
+}
+
+// scatteredMounts: the mounts of one layer do not form one block of the mount table -- another layer
+// was mounted in between and one import was mounted again later -- and then the layer is unmounted
+func scatteredMounts(r *rng.R) lcw.Input {
+	ws, in := world(r, true)
+	a, b := pickLayer(r, ws), pickLayer(r, ws)
+	in.Steps = append(in.Steps, step("mount", a.Name, "", false), step("mount", b.Name, "", false))
+	if mps := mountpointsOf(in.Cfg, a); len(mps) > 0 {
+		in.Steps = append(in.Steps, kumount(mps[r.Intn(len(mps))]))
+	}
+	in.Steps = append(in.Steps, step("mount", a.Name, "", false))
+	if r.Chance(1, 2) {
+		in.Steps = append(in.Steps, step("umount", a.Name, "", false))
+	} else {
+		in.Steps = append(in.Steps, step("umount", b.Name, "", false), step("umount", a.Name, "", false))
+	}
+	in.Steps = append(in.Steps, step("umount", "", "", true), step("probe", "", "", false))
+	return in
+}
+
+// remountAfterLoss: a mounted stack loses one import of some layer of the chain by hand (or gains an
+// import line in a layerconfig); the next mount of the top layer has to bring exactly that one back
+func remountAfterLoss(r *rng.R) lcw.Input {
+	ws, in := world(r, true)
+	// the deepest layer available
+	top := ws.Layers[0]
+	depth := func(l lcw.LayerSpec) int {
+		d := 0
+		for l.Base != "" && d < 10 {
+			for _, x := range ws.Layers {
+				if x.Name == l.Base {
+					l = x
+					break
+				}
+			}
+			d++
+		}
+		return d
+	}
+	for _, l := range ws.Layers {
+		if depth(l) > depth(top) {
+			top = l
+		}
+	}
+	in.Steps = append(in.Steps, step("mount", top.Name, "", false))
+	// a victim on the chain, preferably an ancestor
+	chain := []lcw.LayerSpec{top}
+	for l := top; l.Base != ""; {
+		found := false
+		for _, x := range ws.Layers {
+			if x.Name == l.Base {
+				chain, l, found = append(chain, x), x, true
+				break
+			}
+		}
+		if !found {
+			break
+		}
+	}
+	v := chain[r.Intn(len(chain))]
+	if len(chain) > 1 && r.Chance(2, 3) {
+		v = chain[1+r.Intn(len(chain)-1)]
+	}
+	if mps := mountpointsOf(in.Cfg, v); len(mps) > 0 {
+		in.Steps = append(in.Steps, kumount(mps[len(mps)-1-r.Intn(len(mps))]))
+	}
+	in.Steps = append(in.Steps, step("mount", top.Name, "", false), step("mount", top.Name, "", false), step("probe", "", "", false))
+	return in
+}
+
 func world(r *rng.R, healthy bool) (lcw.WorldSpec, lcw.Input) {
 	ws := lcw.GenWorld(r, 5, healthy)
 	return ws, lcw.BuildInput(ws)
@@ -308,6 +402,9 @@ func init() {
 	}
 	// ---- C01
 	register("c01", func(r *rng.R, tier string) []lcw.Input {
+		if r.Chance(1, 4) {
+			return []lcw.Input{remountAfterLoss(r)}
+		}
 		ws, in := world(r, r.Chance(5, 6))
 		if r.Chance(1, 6) { // an import whose mountpoint tries to leave the build root
 			l := &ws.Layers[r.Intn(len(ws.Layers))]
@@ -340,27 +437,10 @@ func init() {
 	register("c03", func(r *rng.R, tier string) []lcw.Input {
 		ws, in := world(r, true)
 		if r.Chance(1, 5) {
-			// one base with several derived siblings, all mounted, some busy some idle, then umount -all
-			imports := lcw.GenImports(r, in.Cfg, true)
-			ws.Layers = []lcw.LayerSpec{{Name: "base1", HasConfig: true, HasBuild: true, Minimal: true, Mountpoints: true, Imports: imports, HasPackages: true}}
-			sibs := []string{"sib1", "sib2", "sib3"}[:2+r.Intn(2)]
-			for _, n := range sibs {
-				ws.Layers = append(ws.Layers, lcw.LayerSpec{Name: n, Base: "base1", HasConfig: true, HasBuild: true, Minimal: true,
-					Mountpoints: true, HasWork: true, HasUpper: true, Imports: lcw.GenImports(r, in.Cfg, false)})
-			}
-			in = lcw.BuildInput(ws)
-			for _, n := range sibs {
-				in.Steps = append(in.Steps, step("mount", n, "", false))
-			}
-			last := step("umount", "", "", true)
-			last.Users = map[string][]lcw.User{}
-			for _, n := range sibs {
-				if r.Chance(1, 2) {
-					last.Users[n] = []lcw.User{{File: r.Pick([]string{"build", "build/usr", "overlayfs/upperdir"})}}
-				}
-			}
-			in.Steps = append(in.Steps, last, step("probe", "", "", false))
-			return []lcw.Input{in}
+			return []lcw.Input{siblingWorld(r)}
+		}
+		if r.Chance(1, 6) {
+			return []lcw.Input{scatteredMounts(r)}
 		}
 		in.Steps = append(in.Steps, priorMounts(r, ws, in.Cfg, r.Chance(1, 3))...)
 		in.Steps = append(in.Steps, step("mount", pickLayer(r, ws).Name, "", false))
@@ -399,6 +479,9 @@ func init() {
 	})
 	// ---- C04
 	register("c04", func(r *rng.R, tier string) []lcw.Input {
+		if r.Chance(1, 6) {
+			return []lcw.Input{siblingWorld(r)}
+		}
 		ws, in := world(r, r.Chance(2, 3))
 		if r.Chance(1, 4) {
 			// an INCOMPLETE layer (an overlayfs directory missing) that still has a mount below its
@@ -573,6 +656,9 @@ func init() {
 			}
 			in.Steps = append(in.Steps, priorMounts(r, ws, in.Cfg, false)...)
 			t := pickLayer(r, ws).Name
+			if r.Chance(1, 3) { // the layer has been in use before: its export links exist, nothing is mounted now
+				in.Steps = append(in.Steps, step("mount", t, "", false), step("umount", "", "", true))
+			}
 			var cmd lcw.StepIn
 			kinds := []string{"add", "rename", "rebase", "remove", "mkdirs", "mount", "umount", "init"}
 			if mode == "crash" {
